@@ -38,6 +38,7 @@ CatAll ==
 
 \* ---- history templates.  "sweep" is not an operation of Lifecycle: the templates below use only real operations.
 T_gate  == << {"new"}, {"sweep", "fit"}, {"sweep", "fit", "save"}, {"sweep", "save", "restart", "load"}, {"sweep", "restart", "load"}, {"sweep", "load"}, {"sweep"} >>
+T_refit == << {"new"}, {"fit"}, {"sweep", "fit"}, {"fit", "sweep"}, {"sweep", "save"}, {"sweep"} >>
 T_store == << {"new"}, {"fit"}, {"sweep"}, {"save"}, {"restart", "load"}, {"load", "sweep"}, {"sweep", "save"}, {"save", "sweep"} >>
 T_pure  == << {"new"}, {"fit"}, {"predict"}, {"predict", "readdf"}, {"predict", "scribble"}, {"predict", "save"} >>
 T_inter == << {"new"}, {"new"}, {"fit"}, {"predict", "fit"}, {"fit", "predict"}, {"predict"}, {"predict"} >>
